@@ -54,11 +54,7 @@ Definition gkey_eqb (x y : gkey) : bool :=
   end.
 
 Definition gdict := list (gkey * Z).
-Fixpoint glookup (k : gkey) (d : gdict) : option Z :=
-  match d with
-  | [] => None
-  | (k', v) :: d' => if gkey_eqb k' k then Some v else glookup k d'
-  end.
+Definition glookup (k : gkey) (d : gdict) : option Z := alookup gkey_eqb k d.
 
 Fixpoint map_opt {A B} (f : A -> option B) (l : list A) : option (list B) :=
   match l with
